@@ -132,13 +132,13 @@ var Cases = []Case{
 	storeCase("C11", "storeworld-cadence", 1, storeworld.RunC11Cadence),
 	storeCase("C13", "storeworld-corrupt", 1, storeworld.RunC13Corrupt),
 	liveCase("C12", "storeworld-live", 1, storeworld.LiveOpts{Lookup: true, Expiry: true, SvcFaults: true, Readers: true, Close: true,
-		Oracles: orc("read-value", "read-order", "read-blocks")}),
+		Oracles: orc("read-value", "read-order", "read-blocks", "read-after-poll")}),
 	storeCase("C12", "storeworld-race", 1, func(s *kernel.Sim) *storeworld.World { return storeworld.RunStoreRace(s, "C12") }),
 	liveCase("C19", "storeworld-live", 1, storeworld.LiveOpts{Lookup: true, Expiry: true, Restarts: true, Readers: true, Skew: true,
 		Oracles: orc("drop", "lastaccess")}),
-	liveCase("C15", "storeworld-live", 1, storeworld.LiveOpts{Lookup: true, Updaters: true, SvcFaults: true,
+	liveCase("C15", "storeworld-live", 1, storeworld.LiveOpts{Lookup: true, Updaters: true, SvcFaults: true, CacheFaults: true, Expiry: true,
 		Oracles: orc("upd-value", "upd-rebuild", "upd-lost", "upd-error", "upd-close")}),
-	liveCase("C13", "storeworld-live", 4, storeworld.LiveOpts{Lookup: true, Restarts: true, CacheFaults: true, SvcFaults: true, Readers: true, Close: true,
+	liveCase("C13", "storeworld-live", 4, storeworld.LiveOpts{Lookup: true, Restarts: true, CacheFaults: true, SvcFaults: true, Readers: true, Close: true, Expiry: true,
 		Oracles: orc("doc-shape", "doc-complete", "restart-probe", "converge")}),
 }
 
